@@ -2,9 +2,8 @@
    Property theorems only; proofs in Cond/CondProofs.v.  The model (Cond/CondModel.v) is tied to
    src/configfile-glue.c by differential correspondence on random condition trees and operation sequences
    (harness/cond_h.c <-> extracted model), every result also judged against a reference of the language.
-   PARTIAL: that config_cond_cache_reset_item() re-establishes coherence after an attribute rewrite
-   (reset_item_sufficient) is covered by the correspondence and the reference, not by a theorem yet. *)
-From LV Require Import Base.Bytes Cond.CondModel Cond.CondProofs.
+   That config_cond_cache_reset_item() re-establishes coherence after an attribute rewrite is Cond/ResetProofs.v. *)
+From LV Require Import Base.Bytes Cond.CondModel Cond.CondProofs Cond.ResetProofs.
 
 (* with every attribute available and a coherent cache, config_check_cond answers "contributes" iff the block's own
    condition holds, every enclosing block contributes and every earlier branch of its if/else chain failed -- and leaves
@@ -30,6 +29,30 @@ Theorem last_block_wins : forall pre x post acc,
   Forall (fun p => fst p = false \/ snd p = None) post -> last_wins (pre ++ (true, Some x) :: post) acc = Some x.
 Proof. exact last_block_wins_all. Qed.
 Print Assumptions last_block_wins.
+
+(* after one attribute (the URL path after a path-info split, the client address after mod_extforward, ...) has been rewritten and
+   config_cond_cache_reset_item() called for it, the cache is coherent with the NEW attributes: every cached result that could depend
+   on it - the blocks testing it, everything nested in them, and every later branch of their else-chains with everything nested there -
+   is gone, and nothing else is.  wf2: children lists and prev/next links agree with the parent links (how the parser builds them);
+   pinv: a block is evaluated only after its parent - established by reset_all and kept by every evaluation and by reset_item itself *)
+Theorem reset_item_is_sufficient : forall t k a a' c,
+  wf2 t -> addr_only_for_remote_ip t -> comp (tget t 0) <> k ->
+  agree_except k a a' -> coh t a c -> pinv t c ->
+  coh t a' (reset_item t c k) /\ pinv t (reset_item t c k).
+Proof. exact reset_item_restores_coherence. Qed.
+Print Assumptions reset_item_is_sufficient.
+
+Theorem evaluation_keeps_parent_before_child : forall t a, wf_tree t -> forall i fuel (c : cache),
+  length c = length t -> glt t c 0 -> 0 < i < length t ->
+  let '(r, c') := check fuel t a c i in
+  length c' = length t /\ glt t c' 0 /\ (r <> Unset -> res (cget c' i) = r) /\
+  (forall x, res (cget c x) <> Unset -> res (cget c' x) = res (cget c x)) /\ (forall x, i < x -> cget c' x = cget c x).
+Proof. exact check_keeps_pinv. Qed.
+Print Assumptions evaluation_keeps_parent_before_child.
+
+Theorem fresh_cache_has_parent_before_child : forall t c, length c = length t -> pinv t (reset_all c).
+Proof. exact pinv_reset_all. Qed.
+Print Assumptions fresh_cache_has_parent_before_child.
 
 (* non-vacuity: a nested block inside an else-branch, host with a port *)
 Example c14_nonvacuous :
